@@ -337,18 +337,21 @@ Definition slot_fields (slot sub op : bytes) : bytes * bytes * N * bool * bool :
 Inductive ares := AOk (p : parsed) | AErr | APanic | ADiverge.
 Inductive upart := AOk' (uses : list usedep) (rest : bytes) | AErr' | ADiverge'.
 
-(* leading "!" / "!!" and the version operator: (blocker, hardblock, relop, rest) *)
-Definition take_prefix (s : bytes) : bool * bool * N * bytes :=
-  let '(bl, hb, s1) :=
-    if is 33 (peek s) then (if is 33 (peek1 s) then (true, true, tl (tl s)) else (true, false, tl s))
-    else (false, false, s) in
+(* leading "!" / "!!": (blocker, hardblock, rest) *)
+Definition take_block (s : bytes) : bool * bool * bytes :=
+  if is 33 (peek s) then (if is 33 (peek1 s) then (true, true, tl (tl s)) else (true, false, tl s))
+  else (false, false, s).
+(* the version operator: (relop, rest); "=" is never followed by a second operator character *)
+Definition take_op (s1 : bytes) : N * bytes :=
   let c := peek s1 in
-  let '(relop, s2) :=
-    if is 126 c then (R_range, tl s1)
-    else if is 61 c then (R_eq, tl s1)
-    else if is 60 c then (if is 61 (peek1 s1) then (R_le, tl (tl s1)) else (R_lt, tl s1))
-    else if is 62 c then (if is 61 (peek1 s1) then (R_ge, tl (tl s1)) else (R_gt, tl s1))
-    else (R_none, s1) in
+  if is 126 c then (R_range, tl s1)
+  else if is 61 c then (R_eq, tl s1)
+  else if is 60 c then (if is 61 (peek1 s1) then (R_le, tl (tl s1)) else (R_lt, tl s1))
+  else if is 62 c then (if is 61 (peek1 s1) then (R_ge, tl (tl s1)) else (R_gt, tl s1))
+  else (R_none, s1).
+Definition take_prefix (s : bytes) : bool * bool * N * bytes :=
+  let '(bl, hb, s1) := take_block s in
+  let '(relop, s2) := take_op s1 in
   (bl, hb, relop, s2).
 
 (* the USE-dependency part (asDependencyAtom) or the check that nothing follows the atom *)
